@@ -1,11 +1,220 @@
 package main
 
 import (
+	"encoding/json"
+	"fmt"
+	"os"
+	"os/exec"
+	"path/filepath"
+	"sort"
+	"strings"
+	"sync"
+
 	"utilverif/internal/core"
 	"utilverif/internal/props"
+	"utilverif/internal/rules"
 )
 
-// thorough adds the deeper tier's work to a result (second build configuration, self-test).
+// thorough adds the deeper tier's work to a result:
+//
+//  1. the same property is decided on a second build configuration (GOOS=darwin GOARCH=arm64, which also
+//     type-checks files with different build constraints); the obligation sets must be identical;
+//  2. the checker's self-test: every seeded property-breaking change recorded for this property
+//     (/verif/seeded) is applied to a scratch copy of the CURRENT tree and must be reported; every
+//     behaviour-preserving refactor (/verif/silent) must not be. The self-test judges the checker,
+//     not /repo: it is reported in the evidence and as SELFTEST lines and never changes the verdict.
 func thorough(repo, vdir string, prog *core.Prog, p *props.Property, res *props.Result) {
-	// filled in below as the tier is built
+	// 1. second configuration
+	prog2, err := core.Load(repo, "GOOS=darwin", "GOARCH=arm64", "CGO_ENABLED=0")
+	if err != nil {
+		res.Obls = append(res.Obls, &rules.Obligation{Rule: "config", Construct: "GOOS=darwin GOARCH=arm64/load", Pos: "-", Verdict: rules.Undecided, Detail: err.Error()})
+		res.Violations = append(res.Violations, res.Obls[len(res.Obls)-1])
+	} else {
+		prog2.RegisterFieldOwners()
+		findings, _ := props.LoadFindings(filepath.Join(vdir, "known-findings.json"))
+		res2 := props.Run(prog2, p, findings)
+		key := func(os []*rules.Obligation) map[string]string {
+			m := map[string]string{}
+			for _, o := range os {
+				m[o.Rule+"|"+o.Construct] = string(o.Verdict)
+			}
+			return m
+		}
+		a, b := key(res.Obls), key(res2.Obls)
+		var diff []string
+		for k, v := range a {
+			if b[k] != v {
+				diff = append(diff, fmt.Sprintf("%s: amd64=%s 386=%s", k, v, b[k]))
+			}
+		}
+		for k, v := range b {
+			if _, ok := a[k]; !ok {
+				diff = append(diff, fmt.Sprintf("%s: amd64=<absent> 386=%s", k, v))
+			}
+		}
+		sort.Strings(diff)
+		res.Extra["second_configuration"] = map[string]interface{}{"env": "GOOS=darwin GOARCH=arm64", "obligations": len(res2.Obls), "differences": diff}
+		if len(diff) > 0 {
+			o := &rules.Obligation{Rule: "config", Construct: "GOOS=darwin GOARCH=arm64/obligation-set", Pos: "-", Verdict: rules.Undecided,
+				Detail: "the obligation set differs between build configurations: " + strings.Join(diff, "; ")}
+			res.Obls = append(res.Obls, o)
+			res.Violations = append(res.Violations, o)
+		}
+		fmt.Printf("%s [thorough]: GOOS=darwin GOARCH=arm64: %d obligations, %d differences\n", p.ID, len(res2.Obls), len(diff))
+	}
+	// 2. self-test
+	st := selfTest(repo, vdir, p)
+	res.Extra["selftest"] = st
+	fmt.Printf("SELFTEST: property=%s killed=%d survived=%d silent_ok=%d silent_alarmed=%d skipped=%d\n", p.ID, len(st.Killed), len(st.Survived), len(st.SilentOK), len(st.SilentAlarmed), len(st.Skipped))
+	for _, s := range st.Survived {
+		fmt.Printf("SELFTEST: property=%s SURVIVED %s (a seeded change this check does not report)\n", p.ID, s)
+	}
+	for _, s := range st.SilentAlarmed {
+		fmt.Printf("SELFTEST: property=%s FALSE-ALARM %s (a behaviour-preserving change this check reports)\n", p.ID, s)
+	}
+}
+
+type selfTestResult struct {
+	Killed        []string `json:"killed"`
+	Survived      []string `json:"survived"`
+	SilentOK      []string `json:"silent_ok"`
+	SilentAlarmed []string `json:"silent_alarmed"`
+	Skipped       []string `json:"skipped"`
+	Note          string   `json:"note"`
+}
+
+type variant struct {
+	name   string
+	patch  string
+	silent bool
+}
+
+func selfTest(repo, vdir string, p *props.Property) *selfTestResult {
+	out := &selfTestResult{Note: "each variant is the current working tree of the repository plus one recorded patch, analysed by a child process; kill list = /verif/seeded entries written against this property (known misses are listed in DESIGN.md), silent list = /verif/silent (behaviour-preserving refactors touching the property's packages)"}
+	var vs []variant
+	seeded, _ := filepath.Glob(filepath.Join(vdir, "seeded", "*", "meta.json"))
+	sort.Strings(seeded)
+	for _, m := range seeded {
+		var meta struct {
+			Property   string
+			Properties []string
+		}
+		b, err := os.ReadFile(m)
+		if err != nil || json.Unmarshal(b, &meta) != nil {
+			continue
+		}
+		mine := meta.Property == p.ID
+		for _, q := range meta.Properties {
+			if q == p.ID {
+				mine = true
+			}
+		}
+		if mine {
+			vs = append(vs, variant{name: filepath.Base(filepath.Dir(m)), patch: filepath.Join(filepath.Dir(m), "patch.diff")})
+		}
+	}
+	pkgs := map[string]bool{}
+	for _, s := range p.Sels {
+		for _, sc := range s.Scope {
+			pkgs[sc] = true
+		}
+		for _, pre := range s.Prefixes {
+			pkgs[strings.SplitN(strings.TrimPrefix(pre, "("), ".", 2)[0]] = true
+		}
+		if strings.HasPrefix(s.Run, "G") {
+			pkgs[strings.TrimPrefix(s.Run, "G")] = true
+		}
+	}
+	silent, _ := filepath.Glob(filepath.Join(vdir, "silent", "*.diff"))
+	sort.Strings(silent)
+	for _, sp := range silent {
+		b, err := os.ReadFile(sp)
+		if err != nil {
+			continue
+		}
+		touches := false
+		for _, line := range strings.Split(string(b), "\n") {
+			if strings.HasPrefix(line, "+++ b/") {
+				dir := strings.SplitN(strings.TrimPrefix(line, "+++ b/"), "/", 2)[0]
+				if pkgs[dir] || len(pkgs) == 0 {
+					touches = true
+				}
+			}
+		}
+		if touches {
+			vs = append(vs, variant{name: strings.TrimSuffix(filepath.Base(sp), ".diff"), patch: sp, silent: true})
+		}
+	}
+	exe, err := os.Executable()
+	if err != nil {
+		out.Note += "; cannot locate own executable: " + err.Error()
+		return out
+	}
+	var mu sync.Mutex
+	sem := make(chan struct{}, 8)
+	var wg sync.WaitGroup
+	for _, v := range vs {
+		v := v
+		wg.Add(1)
+		sem <- struct{}{}
+		go func() {
+			defer wg.Done()
+			defer func() { <-sem }()
+			verdict := runVariant(exe, repo, vdir, p.ID, v.patch)
+			mu.Lock()
+			defer mu.Unlock()
+			switch {
+			case verdict == "skip":
+				out.Skipped = append(out.Skipped, v.name)
+			case v.silent && verdict == "alarm":
+				out.SilentAlarmed = append(out.SilentAlarmed, v.name)
+			case v.silent:
+				out.SilentOK = append(out.SilentOK, v.name)
+			case verdict == "alarm":
+				out.Killed = append(out.Killed, v.name)
+			default:
+				out.Survived = append(out.Survived, v.name)
+			}
+		}()
+	}
+	wg.Wait()
+	for _, l := range []*[]string{&out.Killed, &out.Survived, &out.SilentOK, &out.SilentAlarmed, &out.Skipped} {
+		sort.Strings(*l)
+		if *l == nil {
+			*l = []string{}
+		}
+	}
+	return out
+}
+
+// runVariant copies the working tree (without .git), applies the patch and runs the quick check
+// in a child process. Returns "alarm", "quiet" or "skip" (the patch does not apply any more).
+func runVariant(exe, repo, vdir, id, patch string) string {
+	tmp, err := os.MkdirTemp("", "utilcheck-variant-")
+	if err != nil {
+		return "skip"
+	}
+	defer os.RemoveAll(tmp)
+	dst := filepath.Join(tmp, "r")
+	if err := exec.Command("rsync", "-a", "--exclude", ".git", repo+"/", dst+"/").Run(); err != nil {
+		return "skip"
+	}
+	ap := exec.Command("git", "apply", "--unsafe-paths", "--directory="+dst, patch)
+	ap.Dir = tmp
+	if err := ap.Run(); err != nil {
+		// outside a repository git apply wants to be run in the target directory
+		ap2 := exec.Command("git", "apply", patch)
+		ap2.Dir = dst
+		if err2 := ap2.Run(); err2 != nil {
+			return "skip"
+		}
+	}
+	ev := filepath.Join(tmp, "ev")
+	cmd := exec.Command(exe, "-repo", dst, "-property", id, "-tier", "quick", "-evidence", ev)
+	cmd.Env = append(os.Environ(), "VERIF_DIR="+vdir)
+	b, _ := cmd.CombinedOutput()
+	if strings.Contains(string(b), "VIOLATION property="+id) {
+		return "alarm"
+	}
+	return "quiet"
 }
